@@ -170,13 +170,38 @@ def gen_case(rng, tier):
 # helpers
 
 def same_label(a, b):
-    """equal with the same Python kind at every level (1 is not 1.0 is not True)"""
+    """equal as labels: Python dict semantics, 7 == 7.0 is one key (Variables itself hands back the
+    int 7 for a float label 7.0 stored at position 7), but a number is never a string/tuple/bool"""
     if isinstance(a, tuple) or isinstance(b, tuple):
         return (isinstance(a, tuple) and isinstance(b, tuple) and len(a) == len(b)
                 and all(same_label(x, y) for x, y in zip(a, b)))
-    ka = 'i' if isinstance(a, (int, np.integer)) and not isinstance(a, (bool, np.bool_)) else 'f' if isinstance(a, (float, np.floating)) else type(a).__name__
-    kb = 'i' if isinstance(b, (int, np.integer)) and not isinstance(b, (bool, np.bool_)) else 'f' if isinstance(b, (float, np.floating)) else type(b).__name__
-    return ka == kb and a == b
+
+    def kind(x):
+        if isinstance(x, (bool, np.bool_)):
+            return 'bool'
+        if isinstance(x, (int, np.integer, float, np.floating)):
+            return 'num'
+        return type(x).__name__
+    return kind(a) == kind(b) and a == b
+
+
+def norm_label(l):
+    """integral floats (and NumPy numbers) -> int, recursively: one key per Python-equal label"""
+    if isinstance(l, tuple):
+        return tuple(norm_label(x) for x in l)
+    if isinstance(l, (bool, np.bool_)):
+        return l
+    if isinstance(l, (np.integer,)):
+        return int(l)
+    if isinstance(l, (float, np.floating)):
+        return int(l) if float(l).is_integer() else float(l)
+    return l
+
+
+class NormTable(LabelTable):
+    def idx(self, l):
+        l = dec_label(l) if isinstance(l, (dict, list)) else l
+        return super().idx(norm_label(l))
 
 
 def coq_str(s):
@@ -192,6 +217,9 @@ def coq_lbl(l, j=False):
         return f"({L}Int {cz(int(l))})"
     if isinstance(l, (float, np.floating)):
         fr = Fraction(float(l))
+        if fr.denominator == 1:
+            # label normalisation (as in C13): 7.0 and 7 are the same label
+            return f"({L}Int {cz(fr.numerator)})"
         return f"({L}Flt {cz(fr.numerator)} {fr.denominator}%positive)"
     if isinstance(l, str):
         return f"({L}Str {coq_str(l)})"
@@ -363,7 +391,7 @@ def run_bqm(c):
             return {"py_fail": f"serialised labels {order!r} are not the variables {list(bqm.variables)!r}", "features": feats}
     else:
         order = list(bqm.variables)
-    T = LabelTable(order)
+    T = NormTable(order)
     n = len(T)
     py_fail = None
     la, lb = list(bqm.variables), list(new.variables)
@@ -402,7 +430,7 @@ def run_coo(c):
         new = coo.loads(s) if c["header"] else coo.loads(s, vartype=bqm.vartype.name)
     except Exception as e:
         return {"py_fail": f"COO round trip raised {type(e).__name__}: {e}", "features": feats}
-    T = LabelTable(range(15))
+    T = NormTable(range(15))
     py_fail = None
     for v in new.variables:
         if not (isinstance(v, int) and v in bqm.variables):
